@@ -52,6 +52,26 @@ class Obj:
         await asyncio.sleep(0)
         return ("ret", tag)
 
+    def plain_kw(self, tag, name=None, func=None, loop=None):
+        """keyword arguments whose names a dispatcher might use itself"""
+        self._rec(tag)
+
+    async def coro_kw(self, tag, name=None, func=None, loop=None):
+        self._rec(tag)
+        await asyncio.sleep(0)
+        return ("ret", tag) if (name, func, loop) == ("n", "f", "l") else ("args-lost", tag)
+
+    async def coro_slow(self, tag, seconds):
+        """legitimately slow on the owner's loop (a reset wait, several retransmissions)"""
+        self._rec(tag)
+        await asyncio.sleep(seconds)
+        return ("ret", tag)
+
+    async def coro_slow_raise(self, tag, seconds):
+        self._rec(tag)
+        await asyncio.sleep(seconds)
+        raise ValueError(tag)
+
     @_sync_around_async
     async def plain_deco(self, tag):
         """a plain (non-coroutine) method as far as the proxy is concerned: it returns a value (a coroutine object)"""
@@ -197,6 +217,34 @@ async def paused_scenario(started_before):
     return rows
 
 
+async def slow_scenario(seconds):
+    """coroutine calls from another loop that take `seconds` on the owner's loop: the caller gets the result / the exception,
+    however long it takes"""
+    import bellows.thread as th
+
+    thread = th.EventLoopThread()
+    await thread.start()
+    obj = Obj()
+    proxy = th.ThreadsafeProxy(obj, thread.loop)
+    out = []
+    try:
+        f1 = proxy.coro_slow(1, seconds)
+        f2 = proxy.coro_slow_raise(2, seconds)
+        for tag, f in ((1, f1), (2, f2)):
+            try:
+                r = await asyncio.wait_for(f, seconds + 8)
+                out.append((tag, f"value:{r[1]}"))
+            except ValueError as e:
+                out.append((tag, f"raised:{e.args[0]}"))
+            except asyncio.TimeoutError:
+                out.append((tag, "TimeoutError"))
+            except BaseException as e:  # noqa: BLE001
+                out.append((tag, f"error:{type(e).__name__}"))
+    finally:
+        thread.force_stop()
+    return out
+
+
 async def scenario(ctx_rows, burst):
     import bellows.thread as th
 
@@ -252,7 +300,7 @@ async def scenario(ctx_rows, burst):
         async def call_here():
             t0 = time.monotonic()
             try:
-                r = fn(tag)
+                r = fn(tag, name="n", func="f", loop="l") if kind.endswith("_kw") else fn(tag)
             except Exception as e:
                 return ("callraised", type(e).__name__), time.monotonic() - t0
             if asyncio.isfuture(r) or asyncio.iscoroutine(r):
@@ -280,7 +328,7 @@ async def scenario(ctx_rows, burst):
         errors_on_owner.clear()
 
     try:
-        for kind in ("attr", "plain", "plain_ret", "plain_zero", "plain_empty", "plain_deco", "coro", "coro_raise"):
+        for kind in ("attr", "plain", "plain_kw", "plain_ret", "plain_zero", "plain_empty", "plain_deco", "coro", "coro_kw", "coro_raise"):
             for lookup in ("main", "owner"):
                 for caller in ("main", "owner"):
                     await one(kind, lookup, caller)
@@ -343,6 +391,10 @@ def expect(kind, caller, closed, action):
         return "refuse"
     if action == "drop":
         return "ran=none saw=None fast=True"
+    if kind == "plain_kw":
+        kind = "plain"
+    if kind == "coro_kw":
+        kind = "coro"
     if action == "here":
         if kind == "plain":
             return "ran=owner/owner saw=plainret:None owner_err=0"
@@ -367,6 +419,11 @@ def expect(kind, caller, closed, action):
 def run(ctx):
     logging.disable(logging.CRITICAL)
     rounds = ctx.n(3, 20)
+    # calls that are slow on the owner's loop run next to everything else (own thread, own caller loop)
+    slow_secs = ctx.n(10.6, 31.0)
+    slow_out = {}
+    slow_thread = threading.Thread(target=lambda: slow_out.setdefault("rows", asyncio.run(slow_scenario(slow_secs))), daemon=True)
+    slow_thread.start()
     allrows = []
     for r in range(rounds):
         allrows.append(asyncio.run(scenario(None, ctx.n(200, 1000))))
@@ -375,7 +432,7 @@ def run(ctx):
         for kind, lookup, caller, closed, obs in rows:
             if kind in ("burst", "mixedburst"):
                 continue
-            mk = {"attr": "attr", "plain": "plain", "plain_ret": "plain", "plain_zero": "plain", "plain_empty": "plain", "plain_deco": "plain", "coro": "coro", "coro_raise": "coro"}[kind]
+            mk = {"attr": "attr", "plain": "plain", "plain_kw": "plain", "plain_ret": "plain", "plain_zero": "plain", "plain_empty": "plain", "plain_deco": "plain", "coro": "coro", "coro_kw": "coro", "coro_raise": "coro"}[kind]
             lines.append(f"c20 {mk} {1 if caller == 'owner' else 0} {closed}")
     model = ctx.driver(lines)
     k = 0
@@ -411,11 +468,11 @@ def run(ctx):
                     bad = f"{kind} looked up on {lookup}, called from another loop, did not run on the owner's loop and thread: {obs}"
                 if caller == "owner" and "ran=owner/owner" not in obs:
                     bad = f"{kind} called from the owner's loop did not run there: {obs}"
-                if kind == "coro" and "saw=value:" not in obs:
+                if kind in ("coro", "coro_kw") and "saw=value:" not in obs:
                     bad = f"coroutine result not relayed to the caller: {obs}"
                 if kind == "coro_raise" and "saw=raised:" not in obs:
                     bad = f"coroutine exception not relayed to the caller: {obs}"
-                if kind in ("plain", "plain_ret", "plain_zero", "plain_empty", "plain_deco") and caller == "main" and "saw=plainret:None" not in obs:
+                if kind in ("plain", "plain_kw", "plain_ret", "plain_zero", "plain_empty", "plain_deco") and caller == "main" and "saw=plainret:None" not in obs:
                     bad = f"plain call from another loop returned something to the caller: {obs}"
                 if kind in ("plain_ret", "plain_zero", "plain_empty", "plain_deco") and caller == "main" and "owner_err=1" not in obs:
                     bad = f"a plain method returning a value through the proxy was not reported as an error on the owner: {obs}"
@@ -426,6 +483,15 @@ def run(ctx):
                 got = re.sub(r"(value|raised):\d+", r"\1:TAG", obs)
                 if want != got:
                     ctx.corr_diff(f"proxy behaviour differs for {kind} (lookup {lookup}, caller {caller}, closed {closed})", {"kind": kind, "lookup": lookup, "caller": caller}, got, f"{action} => {want}")
+    slow_thread.join(slow_secs + 30)
+    for tag, obs in slow_out.get("rows", [(0, "scenario did not finish")]):
+        ctx.cov["evaluations"] += 1
+        ctx.cov["distinct_nontrivial"] += 1
+        ctx.count("slow-coroutine-call")
+        want = {1: "value:1", 2: "raised:2"}.get(tag)
+        if obs != want:
+            ctx.violation(f"a coroutine call from another loop that takes {slow_secs}s on the owner's loop: the caller saw {obs}, expected {want} (the result or the exception of the method, however long it takes)",
+                          {"kind": "slow"}, {"kind": "slow", "seconds": slow_secs})
     # owner loop alive but not running at the moment of the calls
     for started_before in (False, True):
         for _ in range(ctx.n(2, 6)):
@@ -474,6 +540,13 @@ def replay(ctx, obj):
         kinds, started, outcomes, stopped = asyncio.run(stopping_scenario(r["n_long"], r["n_cleanup"], r["seed"], r.get("immediate", False)))
         bad = [o for o in outcomes if o.endswith("HANG")] or (not stopped)
         print(f"replay stopping burst {kinds}: {outcomes} stopped={stopped}: {'FAILS' if bad else 'ok'}")
+        if bad:
+            print(f"VIOLATION property={ctx.pid} replay=replay")
+        return 1 if bad else 0
+    if r.get("kind") == "slow":
+        rows = asyncio.run(slow_scenario(r["seconds"]))
+        bad = [x for x in rows if x[1] != {1: "value:1", 2: "raised:2"}[x[0]]]
+        print(f"replay slow calls: {rows}: {'FAILS' if bad else 'ok'}")
         if bad:
             print(f"VIOLATION property={ctx.pid} replay=replay")
         return 1 if bad else 0
